@@ -26,7 +26,7 @@ func init() {
 		Race:          true,
 		Shards:        4,
 		NoHangMonitor: true,
-		Rule: "one configured engine per round; templates = one per registered standard tag and per registered standard filter (enumerated from the engine's tables at run time) plus generated programs; in every round N in {2,4,8,16,32} goroutines render THE SAME parsed *Template objects and parse the same sources concurrently, sharing one set of binding values (incl. Drops by value and by pointer, Drops pre-wrapped with values.ValueOf that are still unresolved when each burst starts, typed slices, maps, IterationKeyedMap, MapSlice), under GOMAXPROCS in {1,2,4,16}, with schedule perturbation through verifhook.Yield and through yielding callbacks (Drop.ToLiquid, io.Writer, a registered tag); built with -race. Each operation is recorded at the client boundary (goroutine, kind, template, call/return timestamp from one monotonic clock, result hash). Oracle: no race report whose stack contains the repository; every concurrent result equals the single-threaded result computed before and after. Interleaving coverage = distinct overlapping (template_i, template_j) pairs, including a template overlapping itself. Non-trivial = an operation that overlapped another operation in time; distinct = distinct overlapping pairs.",
+		Rule: "one configured engine per round; templates = one per registered standard tag and per registered standard filter (enumerated from the engine's tables at run time) plus generated programs; in every round N in {2,4,8,16,32} goroutines render THE SAME parsed *Template objects, parse the same sources and register templates with ParseTemplateAndCache concurrently, sharing one set of binding values (incl. Drops by value and by pointer, Drops pre-wrapped with values.ValueOf that are still unresolved when each burst starts, typed slices, maps, IterationKeyedMap, MapSlice), under GOMAXPROCS in {1,2,4,16}, with schedule perturbation through verifhook.Yield and through yielding callbacks (Drop.ToLiquid, io.Writer, a registered tag); built with -race. Each operation is recorded at the client boundary (goroutine, kind, template, call/return timestamp from one monotonic clock, result hash). Oracle: no race report whose stack contains the repository; every concurrent result equals the single-threaded result computed before and after. Interleaving coverage = distinct overlapping (template_i, template_j) pairs, including a template overlapping itself. Non-trivial = an operation that overlapped another operation in time; distinct = distinct overlapping pairs.",
 		Exhaustive: func(string) bool { return false },
 		Assumptions: []string{
 			"the sequential specification of every operation is a pure function of its arguments (what C02/C03 establish), so a history is linearizable iff every operation returned the sequential value: an O(n) check, no search",
@@ -272,6 +272,9 @@ func c04Round(c *core.Ctx, round int) {
 			base[i] = pr
 		}
 	}
+	dynSrc := "[dyn {{ n }}{% for q in (1..2) %}{{ q }}{% endfor %}]"
+	core.ParseCache(twin, dynSrc, "c04/dyn0.html", 1)
+	dynWant := core.RunAt(twin, "{% include 'dyn0.html' %}|{% include 'inc.html' %}", "c04/top.html", 1, b)
 	verifhook.SetBudget(0)
 	verifhook.SetConcurrent(true) // hooks must not synchronise the goroutines under test (see verifhook)
 	defer verifhook.SetConcurrent(false)
@@ -304,6 +307,20 @@ func c04Round(c *core.Ctx, round int) {
 							opsMu.Unlock()
 						}
 					}
+					// registering templates for include is parsing too: several goroutines register (the same content under a few
+					// paths) while others render includes
+					dyn := fmt.Sprintf("dyn%d.html", g%3)
+					if _, pr := core.ParseCache(e, dynSrc, "c04/"+dyn, 1); !pr.OK() {
+						opsMu.Lock()
+						c.Violate("concurrent-differs-from-sequential|ParseTemplateAndCache", "registering a template concurrently failed", map[string]any{"observed": pr.Brief()})
+						opsMu.Unlock()
+					} else if got := core.RunAt(e, "{% include '"+dyn+"' %}|{% include 'inc.html' %}", "c04/top.html", 1, b); !got.Same(dynWant) {
+						opsMu.Lock()
+						c.Violate("concurrent-differs-from-sequential|include-of-registered", "an include of a template registered concurrently returned something else than when run alone",
+							map[string]any{"sequential": dynWant.Brief(), "concurrent": got.Brief()})
+						opsMu.Unlock()
+					}
+					nops.Add(2)
 					// every goroutine walks the templates in the same rotation so that the same *Template overlaps itself
 					for k := 0; k < len(srcs); k++ {
 						i := (k + g/4) % len(srcs)
